@@ -1054,13 +1054,20 @@ func countResult(before, after []*rblk) {
 		for k := len(a.params); k < len(b.params); k++ {
 			rep.Count("out:redundant-param-removed")
 		}
+		// the layout may have inverted a conditional branch: both kinds count as one
+		kind := func(n string) string {
+			if n == "brz" || n == "brnz" {
+				return "condbr"
+			}
+			return n
+		}
 		kept := map[string]int{}
 		for _, i := range a.ins {
-			kept[i.name]++
+			kept[kind(i.name)]++
 		}
 		all := map[string]int{}
 		for _, i := range b.ins {
-			all[i.name]++
+			all[kind(i.name)]++
 			if (i.name == "ishl" || i.name == "ushr" || i.name == "sshr") && defs[i.a[1]] != nil && defs[i.a[1]].name == "iconst" {
 				w := uint64(32)
 				if i.ty == ssa.TypeI64 {
